@@ -85,7 +85,7 @@ Theorem C16_non_number_error : forall fuel start limit step,
   (fv_num start <> None -> fv_num limit = None -> for_im_val fuel start limit step = FVErrLimit) /\
   (fv_num start <> None -> fv_num limit <> None -> fv_num step = None -> for_im_val fuel start limit step = FVErrStep) /\
   (forall a b c, fv_num start = Some a -> fv_num limit = Some b -> fv_num step = Some c ->
-     for_im_val fuel start limit step = FVRes (for_im fuel a b c)).
+     for_im_val fuel start limit step = FVRes (for_im_gen (fv_is_str start || fv_is_str step) fuel a b c)).
 Proof. exact non_number_error. Qed.
 Print Assumptions C16_non_number_error.
 
@@ -122,18 +122,15 @@ Theorem C16_for_im_is_manual : forall fuel a b c, num_ok a -> num_ok b -> num_ok
 Proof. exact for_im_is_manual. Qed.
 Print Assumptions C16_for_im_is_manual.
 
-(* Numeric strings as control values.  NOT a theorem of the code as it stands: a string that denotes an
-   integer in the start or step position gives an integer loop in golua (ToNumberValue), a float loop by the
-   manual and in PUC-Lua (for i="1",2 -> 1.0, 2.0).  string_loop_defect start step =
-   (start or step is such a string) && both denote integers.  Open finding C16-string-start-step-integer-loop. *)
-Theorem C16_string_operand_refuted :
-  exists fuel start limit step, fv_ok start /\ fv_ok limit /\ fv_ok step /\
-    for_im_val fuel start limit step <> for_s_val fuel start limit step.
-Proof. exact string_operand_refuted. Qed.
-Print Assumptions C16_string_operand_refuted.
-
-Theorem C16_string_operand_partial : forall fuel start limit step, fv_ok start -> fv_ok limit -> fv_ok step ->
-  string_loop_defect start step = false ->
+(* Numeric strings as control values (full theorem since the repair of prepfor: a string start or step makes
+   a float loop, a string limit is just its number; witness for i="1",2 now in corpus/C16/strfor.txt). *)
+Theorem C16_string_operand : forall fuel start limit step, fv_ok start -> fv_ok limit -> fv_ok step ->
   for_im_val fuel start limit step = for_s_val fuel start limit step.
-Proof. exact string_operand_partial. Qed.
-Print Assumptions C16_string_operand_partial.
+Proof. exact string_operand. Qed.
+Print Assumptions C16_string_operand.
+
+(* the code before that repair (loop type taken after ToNumberValue only) was not the manual's *)
+Theorem C16_string_operand_old_code_refuted :
+  exists fuel a b c, for_im fuel a b c <> for_s fuel (NFlt (tofloat a)) b (NFlt (tofloat c)).
+Proof. exact string_operand_old_code_refuted. Qed.
+Print Assumptions C16_string_operand_old_code_refuted.
